@@ -306,3 +306,239 @@ Proof.
   exists (firstn (N.to_nat (c_sb c)) src), (skipn (N.to_nat (c_eb c)) src).
   rewrite Hs, Hl, H3. unfold content. split; [apply slice_split; assumption|reflexivity].
 Qed.
+
+
+(* ---------- kinds: one entity per occurrence, of the kind its CST type stands for ---------- *)
+Lemma entities_of_kinds src file prev n ns :
+  entities_of src file prev n = Ok ns -> List.map n_type ns = kinds_of src n.
+Proof.
+  intro H. unfold entities_of in H. unfold kinds_of.
+  repeat match type of H with
+  | context [if bytes_eqb ?a ?b then _ else _] => destruct (bytes_eqb a b) eqn:?
+  | context [if bytes_eqb ?a ?b || bytes_eqb ?c ?d then _ else _] => destruct (bytes_eqb a b || bytes_eqb c d) eqn:?
+  end;
+  crush H; try (injection H as H; subst ns); try reflexivity.
+  match goal with
+  | E : deref _ (child_by_field n "operator") = Ok ?o |- _ =>
+      destruct (child_by_field n "operator") as [o'|]; cbn [deref] in E; [injection E as E; subst o'|discriminate E]
+  end.
+  rewrite map_app. destruct (lookup_binop _) as [[? ?]|]; reflexivity.
+Qed.
+
+(* a projection of the census is the flat_map of its per-node specification *)
+Lemma census_flat_map {A} (f : node -> A) (spec : cst -> list A) src file :
+  (forall prev n ns, entities_of src file prev n = Ok ns -> List.map f ns = spec n) ->
+  forall n prev es, census src file prev n = Ok es ->
+  List.map f es = flat_map spec (cst_nodes n).
+Proof.
+  intro Hspec.
+  induction n as [ty nm ms fl sb eb r c kids IHk] using cst_ind'. intros prev es H.
+  cbn [census cst_nodes c_kids flat_map] in *.
+  destruct (entities_of src file prev (Cst ty nm ms fl sb eb r c kids)) as [ns|s] eqn:Ens;
+    cbn [bind] in H; [|discriminate].
+  match type of H with bind ?X _ = _ => destruct X as [rest|s] eqn:Er; cbn [bind] in H; [|discriminate] end.
+  injection H as H. subst es. rewrite map_app. f_equal; [eapply Hspec; exact Ens|].
+  clear Ens. revert rest Er. generalize (@None cst).
+  induction kids as [|k ks IHks]; intros pv rest Er.
+  - injection Er as Er. subst. reflexivity.
+  - inversion IHk as [|? ? Pk Pks]; subst.
+    destruct (census src file pv k) as [a|s] eqn:Ea; cbn [bind] in Er; [|discriminate].
+    match type of Er with bind ?X _ = _ => destruct X as [b|s] eqn:Eb; cbn [bind] in Er; [|discriminate] end.
+    injection Er as Er. subst rest. rewrite map_app, flat_map_app. f_equal.
+    + eapply Pk. exact Ea.
+    + eapply IHks; [exact Pks|exact Eb].
+Qed.
+
+Theorem census_kinds src file n prev es :
+  census src file prev n = Ok es -> List.map n_type es = flat_map (kinds_of src) (cst_nodes n).
+Proof. apply census_flat_map. intros p m ns. apply entities_of_kinds. Qed.
+
+(* ---------- totality: the only failures are the unchecked dereferences ---------- *)
+Definition is_ok {A} (r : result A) : Prop := exists a, r = Ok a.
+
+Lemma fold_left_ok {A X} (f : result A -> X -> result A) (l : list X) :
+  (forall acc x, In x l -> is_ok acc -> is_ok (f acc x)) ->
+  forall acc, is_ok acc -> is_ok (fold_left f l acc).
+Proof.
+  induction l as [|x l IH]; intros Hf acc Hacc; [exact Hacc|].
+  cbn [fold_left]. apply IH.
+  - intros a y Hy. apply Hf. right. exact Hy.
+  - apply Hf; [left; reflexivity|exact Hacc].
+Qed.
+
+Lemma extract_method_name_ok src n file :
+  node_shape_okb n = true -> is_ok (extract_method_name src n file).
+Proof.
+  intro Hs. unfold extract_method_name.
+  destruct (is_ty "method_declaration" n) eqn:Emd; [cbn [bind];
+    match goal with |- is_ok (let '(_, _) := ?x in _) => destruct x end; eexists; reflexivity|].
+  destruct (is_ty "method_invocation" n) eqn:Emi; [|cbn [bind]; eexists; reflexivity].
+  match goal with |- is_ok (bind (fold_left ?f ?l ?a) _) => assert (Hfold : is_ok (fold_left f l a)) end.
+  { apply fold_left_ok; [|eexists; reflexivity].
+    intros acc ch _ [[nm ps] ->]. cbn [bind].
+    unfold node_shape_okb in Hs. unfold is_ty in Emi.
+    assert (Hty : bytes_eqb (c_ty n) "method_invocation" = true) by exact Emi.
+    apply bytes_eqb_true in Hty. rewrite Hty in Hs. cbn in Hs.
+    destruct (child_by_field n "argument_list") as [args|]; [|eexists; reflexivity].
+    match goal with |- is_ok (bind (fold_left ?f ?l ?a) _) => assert (Hin : is_ok (fold_left f l a)) end.
+    { apply fold_left_ok; [|eexists; reflexivity].
+      intros acc2 a Ha [ps0 ->]. cbn [bind].
+      rewrite forallb_forall in Hs. specialize (Hs a Ha). cbn beta in Hs.
+      destruct (child a 0) eqn:Ec0; [eexists; reflexivity|].
+      unfold child in Ec0. cbn [nth_error] in Ec0. rewrite Ec0 in Hs. discriminate Hs. }
+    destruct Hin as [ps' ->]. eexists; reflexivity. }
+  destruct Hfold as [[nm ps] ->]. cbn [bind]. eexists; reflexivity.
+Qed.
+
+Lemma entities_of_ok src file prev n :
+  node_shape_okb n = true -> is_ok (entities_of src file prev n).
+Proof.
+  intro Hs. pose proof (extract_method_name_ok src n file Hs) as [[mn mid] Hm].
+  unfold entities_of. rewrite Hm. unfold node_shape_okb in Hs.
+  repeat match goal with
+  | |- context [if bytes_eqb (c_ty n) ?b then _ else _] => destruct (bytes_eqb (c_ty n) b) eqn:?
+  end; cbn [orb bind] in *;
+  repeat match goal with
+  | |- context [match ?x with (_, _) => _ end] => destruct x
+  end;
+  try (eexists; reflexivity).
+  all: repeat match type of Hs with
+       | context [match ?x with Some _ => _ | None => _ end] => destruct x; try discriminate Hs
+       end; cbn [deref bind]; try (eexists; reflexivity).
+  all: try (destruct (has_prefix _ _); eexists; reflexivity).
+  all: destruct (bytes_eqb (c_ty n) "field_declaration"); eexists; reflexivity.
+Qed.
+
+Theorem census_ok src file : forall n prev,
+  forallb node_shape_okb (cst_nodes n) = true -> is_ok (census src file prev n).
+Proof.
+  induction n as [ty nm ms fl sb eb r c kids IHk] using cst_ind'. intros prev Hs.
+  cbn [census cst_nodes c_kids forallb] in *. apply andb_true_iff in Hs as [Hn Hks].
+  destruct (entities_of_ok src file prev _ Hn) as [ns ->]. cbn [bind].
+  assert (Hr : forall pv, is_ok ((fix go (ks : list cst) (prev : option cst) {struct ks} : result (list node) :=
+                match ks with
+                | [] => Ok []
+                | k :: r => bind (census src file prev k)
+                              (fun a => bind (go r (Some k)) (fun b => Ok (a ++ b)))
+                end) kids pv)).
+  { clear Hn. induction kids as [|k ks IHks]; intro pv; [eexists; reflexivity|].
+    inversion IHk as [|? ? Pk Pks]; subst.
+    rewrite forallb_app in Hks. apply andb_true_iff in Hks as [Hk Hrest].
+    destruct (Pk pv Hk) as [a ->]. cbn [bind].
+    destruct (IHks Pks Hrest (Some k)) as [b ->]. cbn [bind]. eexists; reflexivity. }
+  destruct (Hr None) as [rest ->]. cbn [bind]. eexists; reflexivity.
+Qed.
+
+(* C09, crash part, model level *)
+Theorem build_file_total path src t :
+  shape_okb t = true -> exists g, build_file path src t = Ok g.
+Proof.
+  intro Hs. destruct (census_ok src path t None Hs) as [es He].
+  destruct (census_visit_total src path t None None empty_graph es He) as [g Hg].
+  unfold build_file. rewrite Hg. cbn [bind]. eexists; reflexivity.
+Qed.
+
+(* ---------- C09, cost part: the work count is quadratically bounded ---------- *)
+Lemma cst_nodes_length t : length (cst_nodes t) = cst_size t.
+Proof.
+  induction t as [ty nm ms fl sb eb r c kids IHk] using cst_ind'.
+  cbn [cst_nodes cst_size c_kids length]. f_equal.
+  induction kids as [|k ks IHks]; [reflexivity|].
+  inversion IHk as [|? ? Pk Pks]; subst. rewrite app_length, Pk, (IHks Pks). reflexivity.
+Qed.
+
+Lemma kids_span_sum src eb kids : forall lo,
+  (fix go (ks : list cst) (lo : N) : bool :=
+     match ks with
+     | [] => true
+     | k :: r => (lo <=? c_sb k)%N && (c_eb k <=? eb)%N && cst_wfb src k && go r (c_eb k)
+     end) kids lo = true ->
+  (lo <= eb)%N -> list_sum (List.map span kids) <= N.to_nat (eb - lo).
+Proof.
+  induction kids as [|k ks IH]; intros lo H Hle; [cbn; lia|].
+  apply andb_true_iff in H as [H Hr]. apply andb_true_iff in H as [H Hk].
+  apply andb_true_iff in H as [H1 H2]. apply N.leb_le in H1, H2.
+  assert (Hkw : (c_sb k <= c_eb k)%N).
+  { destruct k. cbn [cst_wfb] in Hk. cbn [c_sb c_eb].
+    repeat (apply andb_true_iff in Hk as [Hk _]). apply N.leb_le. exact Hk. }
+  change (list_sum (List.map span (k :: ks))) with (span k + list_sum (List.map span ks)).
+  specialize (IH (c_eb k) Hr H2). unfold span at 1. lia.
+Qed.
+
+Lemma cst_wfb_node_work src : forall t c,
+  cst_wfb src t = true -> In c (cst_nodes t) -> node_work c <= 8 * length src.
+Proof.
+  induction t as [ty nm ms f sb eb r col kids IHk] using cst_ind'. intros c Hwf Hin.
+  pose proof Hwf as Hwf0.
+  cbn [cst_wfb] in Hwf. apply andb_true_iff in Hwf as [Hwf Hkids].
+  apply andb_true_iff in Hwf as [Hwf Hrow]. apply andb_true_iff in Hwf as [H1 H2].
+  apply N.leb_le in H1, H2.
+  cbn [cst_nodes c_kids] in Hin. destruct Hin as [Hin|Hin].
+  - subst c. unfold node_work. cbn [c_kids]. pose proof (kids_span_sum src eb kids sb Hkids H1) as Hs.
+    unfold span at 1. cbn [c_sb c_eb]. lia.
+  - clear H1 H2 Hrow Hwf0. revert Hkids Hin. generalize sb as lo.
+    induction kids as [|k ks IHks]; intros lo Hkids Hin; [contradiction|].
+    inversion IHk as [|? ? Pk Pks]; subst.
+    apply andb_true_iff in Hkids as [Hkids Hrest]. apply andb_true_iff in Hkids as [_ Hk].
+    apply in_app_or in Hin as [Hin|Hin].
+    + apply Pk; assumption.
+    + apply (IHks Pks (c_eb k)); assumption.
+Qed.
+
+Lemma list_sum_bound {A} (f : A -> nat) (b : nat) (l : list A) :
+  (forall x, In x l -> f x <= b) -> list_sum (List.map f l) <= b * length l.
+Proof. induction l as [|x l IH]; intro H; [cbn; lia|].
+  change (list_sum (List.map f (x :: l))) with (f x + list_sum (List.map f l)). cbn [length].
+  pose proof (H x (or_introl eq_refl)). specialize (IH (fun y Hy => H y (or_intror Hy))). lia. Qed.
+
+Lemma map_insert_length k v m : length (map_insert k v m) <= S (length m).
+Proof. induction m as [|[k' v'] m IH]; cbn [map_insert length]; [lia|].
+  destruct (bytes_eqb k k'); cbn [length]; lia. Qed.
+
+Lemma insert_all_length es : forall m, length (insert_all es m) <= length m + length es.
+Proof. induction es as [|e es IH]; intro m; [cbn; lia|]. cbn [insert_all fold_left length].
+  fold (insert_all es (map_insert (n_idpre e) e m)). specialize (IH (map_insert (n_idpre e) e m)).
+  pose proof (map_insert_length (n_idpre e) e m). lia. Qed.
+
+Lemma kinds_of_length src n : length (kinds_of src n) <= 2.
+Proof.
+  unfold kinds_of.
+  repeat match goal with
+  | |- context [if ?b then _ else _] => destruct b
+  end; cbn [length]; try lia.
+  destruct (child_by_field n "operator"); cbn [length]; [|lia].
+  rewrite app_length. destruct (lookup_binop _) as [[? ?]|]; cbn [length]; lia.
+Qed.
+
+Lemma flat_map_length_bound {A B} (f : A -> list B) (b : nat) (l : list A) :
+  (forall x, length (f x) <= b) -> length (flat_map f l) <= b * length l.
+Proof. intro H. induction l as [|x l IH]; [cbn; lia|]. cbn [flat_map length]. rewrite app_length.
+  specialize (H x). lia. Qed.
+
+Lemma filter_length_le {A} (p : A -> bool) (l : list A) : length (filter p l) <= length l.
+Proof. induction l as [|x l IH]; [cbn; lia|]. cbn [filter]. destruct (p x); cbn [length]; lia. Qed.
+
+Lemma Forall2_len {A B} (R : A -> B -> Prop) l1 l2 : Forall2 R l1 l2 -> length l1 = length l2.
+Proof. induction 1; cbn [length]; congruence. Qed.
+
+Theorem build_file_work path src t g :
+  cst_wfb src t = true -> build_file path src t = Ok g ->
+  work t g <= 8 * (cst_size t + length src) * (cst_size t + length src).
+Proof.
+  intros Hwf Hb.
+  assert (Hsz : 1 <= cst_size t) by (destruct t; cbn [cst_size]; lia).
+  assert (Hw : list_sum (List.map node_work (cst_nodes t)) <= 8 * length src * cst_size t).
+  { rewrite <- cst_nodes_length. apply list_sum_bound. intros c Hc. eapply cst_wfb_node_work; eassumption. }
+  assert (Hn : length (g_nodes g) <= 2 * cst_size t).
+  { apply build_file_entities in Hb as [es [Ec [g0 [Hg0 HF]]]].
+    rewrite (Forall2_len _ _ _ HF), Hg0.
+    pose proof (insert_all_length es []) as H1. cbn [length] in H1.
+    apply census_kinds in Ec. apply (f_equal (@length _)) in Ec. rewrite map_length in Ec.
+    pose proof (flat_map_length_bound (kinds_of src) 2 (cst_nodes t) (kinds_of_length src)) as H2.
+    rewrite cst_nodes_length in H2. lia. }
+  unfold work.
+  pose proof (filter_length_le (fun '(_, m) => bytes_eqb (n_type m) "method_declaration") (g_nodes g)) as Hf.
+  set (D := length (filter _ (g_nodes g))) in *. set (M := length (g_nodes g)) in *.
+  set (S := cst_size t) in *. set (L := length src) in *.
+  assert (D * M <= 4 * S * S) by nia. nia.
+Qed.
